@@ -117,6 +117,24 @@ def ident(val):
 
 
 BARE_BRANCH = ("data", "ucfs", "mf", "mfd", "mfe")
+DOWNGRADED = {"split_branches_unknown": 0, "cache_repr_unparsed": 0}
+
+
+class ConstructFailed(Exception):
+    """A lena constructor (or a _get_context() requested right after it) raised: *exc*.
+    Anything else that goes wrong in build() is the harness's own fault and propagates as it is."""
+
+    def __init__(self, exc):
+        Exception.__init__(self, repr(exc))
+        self.exc = exc
+
+
+def _lena(fn, *args, **kwargs):
+    """Call a lena constructor; only its exceptions are attributed to lena."""
+    try:
+        return fn(*args, **kwargs)
+    except Exception as exc:     # noqa
+        raise ConstructFailed(exc)
 
 
 def build(els, tuples=False, peek=0):
@@ -138,25 +156,25 @@ def build(els, tuples=False, peek=0):
     for n, e in enumerate(els, 1):
         k = e["k"]
         if k == "set":
-            o = SetContext(".".join(e["p"]), template(e["v"]))
+            o = _lena(SetContext, ".".join(e["p"]), template(e["v"]))
         elif k == "store":
-            o = StoreContext()
+            o = _lena(StoreContext)
         elif k == "ucfs":
-            o = UpdateContextFromStatic()
+            o = _lena(UpdateContextFromStatic)
         elif k == "mf":
-            o = lena.output.MakeFilename(template(e["v"]))
+            o = _lena(lena.output.MakeFilename, template(e["v"]))
         elif k == "mfd":
-            o = lena.output.MakeFilename(dirname=template(e["v"]))
+            o = _lena(lena.output.MakeFilename, dirname=template(e["v"]))
         elif k == "mfe":
-            o = lena.output.MakeFilename(fileext=template(e["v"]))
+            o = _lena(lena.output.MakeFilename, fileext=template(e["v"]))
         elif k == "write":
-            o = lena.output.Write(template(e["v"]), verbose=False)
+            o = _lena(lena.output.Write, template(e["v"]), verbose=False)
         elif k == "cache":
-            o = lena.flow.Cache(template(e["v"]))
+            o = _lena(lena.flow.Cache, template(e["v"]))
         elif k == "data":
             o = ident
         elif k == "acc":
-            o = lena.math.Sum()
+            o = _lena(lena.math.Sum)
         elif k == "seq":
             ch = [objs[c - 1] for c in e["ch"]]
             if (tuples and n in par and els[par[n] - 1]["k"] == "split"
@@ -169,23 +187,29 @@ def build(els, tuples=False, peek=0):
                 else:
                     o = tuple(ch)
             else:
-                o = lena.core.Sequence(*ch)
+                o = _lena(lena.core.Sequence, *ch)
         elif k == "src":
             ch = [objs[c - 1] for c in e["ch"]]
             lead = 0
             if tuples:
                 while lead < len(ch) and els[e["ch"][lead] - 1]["k"] in ("set", "store"):
                     lead += 1
-            o = lena.core.Source(*(ch[:lead] + [two_values] + ch[lead:]))
+            o = _lena(lena.core.Source, *(ch[:lead] + [two_values] + ch[lead:]))
         elif k == "srcf":
             # the flow comes from the first data element (a Source or a Split of Sources)
-            o = lena.core.Source(*[objs[c - 1] for c in e["ch"]])
+            o = _lena(lena.core.Source, *[objs[c - 1] for c in e["ch"]])
         elif k == "split":
-            o = lena.core.Split([objs[c - 1] for c in e["ch"]])
+            o = _lena(lena.core.Split, [objs[c - 1] for c in e["ch"]])
             if tuples:
-                # the Sequence objects Split made out of tuples are the branch objects
-                for c, real in zip(e["ch"], o._seqs):
-                    objs[c - 1] = real
+                # the Sequence objects Split made out of tuples are the branch objects.  They are
+                # only reachable through a private attribute: if it is not there (or does not
+                # fit) the tuple branches are simply not observed (coverage downgraded)
+                real_seqs = getattr(o, "_seqs", None)
+                if isinstance(real_seqs, (list, tuple)) and len(real_seqs) == len(e["ch"]):
+                    for c, real in zip(e["ch"], real_seqs):
+                        objs[c - 1] = real
+                else:
+                    DOWNGRADED["split_branches_unknown"] += 1
         else:
             raise ValueError(k)
         if n == peek and hasattr(o, "_get_context"):
@@ -193,6 +217,8 @@ def build(els, tuples=False, peek=0):
                 o._get_context()
             except lena.core.LenaKeyError:
                 pass
+            except Exception as exc:     # noqa
+                raise ConstructFailed(exc)
         objs.append(o)
     return objs
 
@@ -201,34 +227,53 @@ _CACHE_RE = re.compile(r'^Cache\("([^"]*)"')
 
 
 def observe_element(kind, o):
-    """Observation of one object: {"ctx": encoded} | {"name": str or None} | {"ok":..} ..."""
+    """Observation of one object through public behaviour: {"ctx": ..} | {"name": ..} |
+    {"ok": ..}; {"raised": ..} when the lena call itself raised; {"skip": True} when the harness
+    can not observe it (never a violation)."""
     import lena.core
     import lena.flow
-    if kind == "store":
-        return {"ctx": prune(o.context)}
-    if kind == "ucfs":
-        out = list(o.run(iter([(0, {})])))
-        return {"ctx": prune(lena.flow.get_context(out[0]))}
-    if kind in MF_KINDS:
-        res = o((0, {}))
-        c = lena.flow.get_context(res)
-        name = c.get("output", {}).get(MF_FIELD[kind]) if isinstance(c, dict) else None
-        return {"name": name}
-    if kind == "write":
-        return {"name": o.output_directory}
-    if kind == "cache":
-        m = _CACHE_RE.match(repr(o))
-        return {"name": m.group(1) if m else "<unparsed repr>"}
     if kind in NODE_KINDS:
         if isinstance(o, tuple) or not hasattr(o, "_get_context"):
             return {"skip": True}
         try:
-            return {"ok": True, "ctx": prune(o._get_context())}
+            c = o._get_context()
         except lena.core.LenaKeyError as exc:
             return {"ok": False, "exc": "LenaKeyError", "msg": str(exc)}
         except Exception as exc:     # noqa
             return {"ok": False, "exc": exc_name(exc), "msg": str(exc)}
-    return {}
+        return {"ok": True, "ctx": prune(c)}
+    if kind == "cache":
+        try:
+            text = repr(o)
+        except Exception as exc:     # noqa
+            return {"raised": exc_name(exc), "msg": str(exc)[:200]}
+        m = _CACHE_RE.match(text)
+        if not m:
+            DOWNGRADED["cache_repr_unparsed"] += 1
+            return {"skip": True}
+        return {"name": m.group(1)}
+    if kind not in ("store", "ucfs", "write") + MF_KINDS:
+        return {}
+    try:        # the lena call
+        if kind == "store":
+            raw = o.context
+        elif kind == "ucfs":
+            raw = list(o.run(iter([(0, {})])))
+        elif kind == "write":
+            raw = o.output_directory
+        else:
+            raw = o((0, {}))
+    except Exception as exc:     # noqa
+        return {"raised": exc_name(exc), "msg": str(exc)[:200]}
+    # the harness's own projection
+    if kind == "store":
+        return {"ctx": prune(raw)}
+    if kind == "ucfs":
+        return {"ctx": prune(lena.flow.get_context(raw[0]))}
+    if kind == "write":
+        return {"name": raw}
+    c = lena.flow.get_context(raw)
+    return {"name": c.get("output", {}).get(MF_FIELD[kind]) if isinstance(c, dict) else None}
 
 
 def run_root(els, objs):
@@ -261,7 +306,7 @@ def observe(els, objs, run=True):
         if isinstance(rt, list):
             import os
             for i, (e, o) in enumerate(zip(els, obs), 1):
-                if e["k"] == "cache" and not os.path.exists(o["name"]):
+                if e["k"] == "cache" and "name" in o and not os.path.exists(o["name"]):
                     changed.append((i, {"name": o["name"]}, {"files": sorted(os.listdir("."))}))
     return obs, rt, changed
 
@@ -322,7 +367,12 @@ def compare(els, exp, obs, rt):
     for i, (e, x, o) in enumerate(zip(els, exp["obs"], obs), 1):
         k = e["k"]
         pk = els[par[i] - 1]["k"] if i in par else "root"
-        if x["free"] or not o or o.get("skip"):
+        if not o or o.get("skip"):
+            continue
+        if o.get("raised"):
+            bad.append((k, "observation-raised-" + o["raised"], pk, i, None, o.get("msg")))
+            continue
+        if x["free"]:
             continue
         if k in ("store", "ucfs"):
             want = prune(dec(x["ctx"]))
@@ -417,7 +467,7 @@ def record(els, obs, rt, stable=True):
     for e, o in zip(els, obs):
         row = {"has": False, "ctx": enc({}), "ok": True, "name": [], "noname": True, "exc": "", "words": []}
         k = e["k"]
-        if o and not o.get("skip"):
+        if o and not o.get("skip") and not o.get("raised"):
             row["has"] = True
             if k in ("store", "ucfs"):
                 row["ctx"] = enc(o["ctx"])
